@@ -59,6 +59,10 @@ CLAIMED = {
             "symbolic centre and exact rotation / polygonal prisms with symbolic offset; z3 decides on every path that strictly "
             "inside points are reported, strictly outside points are not, the partition, scale monotonicity and the "
             "detected / not detected / warning rule."),
+    "C11": ("4 C11", "The id-based pairing code (generic and traffic-light) is executed on <=3x3 ROI-less objects with symbolic "
+            "integer uuids, label and camera choices; z3 decides paired <=> same uuid and camera, one-to-one use, maximality of "
+            "label-correct pairs and completeness of the uuid stage on every path; the classification scores are compared with "
+            "their counting definitions through the real bucketing."),
 }
 NA = {
     "C16": "dataset loading goes through the nuScenes devkit and file I/O; a symbolic stand-in for the devkit would be the "
